@@ -36,7 +36,7 @@ BOUNDS = {
     "quick": {"kinds": ["ode"], "opts": ["sgd", "adam"], "n_iters": [1, 3, 5], "tracked": ["none", "eq"]},
     "thorough": {"kinds": ["ode", "statio", "nonstatio"], "opts": ["sgd", "adam", "chain"], "n_iters": [1, 2, 3, 5, 7], "tracked": ["none", "eq", "nn+eq"]},
 }
-ORIGINS = ["loss", "grad_nn", "grad_nn_last", "grad_eq", "update"]
+ORIGINS = ["loss", "grad_nn", "grad_nn_last", "grad_eq", "update", "grad_nn_entry"]
 
 
 def cases(tier, seed):
@@ -53,16 +53,26 @@ def cases(tier, seed):
                             if tier == "quick" and tracked == "eq" and origin in ("grad_eq",) and opt == "adam":
                                 continue
                             out.append(dict(kind=kind, opt=opt, n_iter=n_iter, tracked=tracked, origin=origin, k=k, n=5, b=2, key=seed + 3))
+                            if kind == "ode" and tracked == "none" and origin in ("grad_nn", "loss") and n_iter >= 3:
+                                # the same fault while residual-adaptive refinement is active
+                                out.append(dict(kind=kind, opt=opt, n_iter=n_iter, tracked=tracked, origin=origin, k=k, n=5, b=2, key=seed + 3, rar=True))
     out.sort(key=lambda c: (c["k"] is not None, c["n_iter"], -1 if c["k"] is None else c["k"]))
     return out
 
 
-def nan_at(k, select):
+def nan_at(k, select, single_entry=False):
     def init(params):
         return jnp.zeros([], jnp.int32)
 
     def update(updates, state, params=None):
-        poisoned = eqx.tree_at(select, updates, replace_fn=lambda x: jnp.where(state == k, jnp.nan, x))
+        def poison(x):
+            if single_entry:  # only the first entry of a multi-entry leaf becomes NaN
+                flat = jnp.ravel(x)
+                flat = flat.at[0].set(jnp.where(state == k, jnp.nan, flat[0]))
+                return flat.reshape(x.shape)
+            return jnp.where(state == k, jnp.nan, x)
+
+        poisoned = eqx.tree_at(select, updates, replace_fn=poison)
         return poisoned, state + 1
 
     return optax.GradientTransformation(init, update)
@@ -87,7 +97,8 @@ def build(case):
     kk = 10**6 if k is None else k
     # the clock parameters exist only for the 'loss value' origin, so that for the gradient origins the
     # poisoned leaves include the first and the last leaf of the parameter pytree
-    pcfg = dict(kind=case["kind"], n=case["n"], b=case["b"], key=case["key"], aux="none", clock=case["origin"] == "loss", nan_from=float(kk))
+    pcfg = dict(kind=case["kind"], n=case["n"], b=case["b"], key=case["key"], aux="none", clock=case["origin"] == "loss", nan_from=float(kk),
+                rar=case.get("rar", False))
     with warnings.catch_warnings():
         warnings.simplefilter("ignore")
         P = tl.make_problem(pcfg)
@@ -96,6 +107,9 @@ def build(case):
         tx = optax.chain(base, clock_tick())
     elif case["origin"] == "grad_nn":
         tx = optax.chain(nan_at(kk, lambda p: jax.tree_util.tree_leaves(p.nn_params)[0]), base)
+    elif case["origin"] == "grad_nn_entry":
+        # first leaf = first Linear weight (hidden x in): several entries, one of them poisoned
+        tx = optax.chain(nan_at(kk, lambda p: jax.tree_util.tree_leaves(p.nn_params)[0], single_entry=True), base)
     elif case["origin"] == "grad_nn_last":
         tx = optax.chain(nan_at(kk, lambda p: jax.tree_util.tree_leaves(p.nn_params)[-1]), base)
     elif case["origin"] == "grad_eq":
